@@ -13,7 +13,13 @@ import (
 // keyAlphabet: values of a key type, base first, each labelled.
 func keyAlphabet(t *schema.Type, reduced bool) []*schema.V {
 	if t.ComplexKey == nil {
-		return schema.Alphabet(t, reduced)
+		var out []*schema.V
+		for _, v := range schema.Alphabet(t, reduced) {
+			if !v.HasNaN() { // NaN never equals itself: it is not a key value
+				out = append(out, v)
+			}
+		}
+		return out
 	}
 	ck := t.ComplexKey
 	var out []*schema.V
